@@ -81,7 +81,7 @@ prop("C04", "fault_enumeration", (160, 2500),
      technique="deterministic simulation: message alteration per protocol round of an honest proof history + causality check against a round model of the transcript",
      text="Complete enumeration, per sampled proof, of single-component alterations of the Fiat-Shamir transcript (statement fields, public inputs, every absorbed proof element) "
           "with a causality oracle: all challenges drawn after the altered component must change. Demands dependence, not a particular absorption format.",
-     note="PLONK transcripts with Poseidon and Keccak, with and without lookups; the STARK transcript is covered once the STARK family exists (see DESIGN). A challenge word may coincide by chance with probability 2^-64.")
+     note="PLONK transcripts (2/3 of runs; Poseidon and Keccak, with and without lookups) and STARK transcripts (1/3 of runs; with and without auxiliary lookup polynomials and quotient; config fields, public inputs, trace/auxiliary/quotient caps, openings, FRI messages). The STARK trace length is not a statement field of the API (it is recovered from the proof shape) and is not altered. A challenge word may coincide by chance with probability 2^-64; the index vector is only demanded to change when N^-q <= 2^-64.")
 
 prop("C16", "exploration", (400, 8000),
      rule="one run = one accepted honest proof of a collision-biased scenario (tiny circuits: LDE domains 2^5..2^8, 28-84 query rounds, all arity schedules, cap heights, "
@@ -195,3 +195,13 @@ prop("C09", "exploration", (300, 6000),
      technique="deterministic simulation: STARK prover/verifier under seeded schedules with trace-cell, public-input and proof faults; direct evaluation of the data-defined constraints as reference",
      text="Seeded exploration of a family of STARK definitions in both directions: satisfying traces (also after changing unconstrained cells) prove and verify, every single-cell or public-input violation and every tampered proof is rejected.",
      note="The family is defined in the simulator (the repository's example STARKs are test-only); lookups and cross-table lookups are C10. Build variant v0 has debug assertions off, so the shipped prover reaches the verifier with violating traces.")
+
+prop("C10", "exploration", (200, 4000),
+     rule="one run = one STARK table with column lookups: 1-3 looking columns (single, scaled with constant, linear combination with another column, next-row), optional 0/1 filter columns (boolean-ness stated as a constraint), "
+          "a table column (arithmetic progression, optionally with repeated values) and a frequencies column; declared constraint degree 2 or 3; traces of 2^1..2^9 rows; all StarkConfigs. "
+          "Cases: honest prove+verify; single-value faults: a looking value altered / random / replaced by another table value (present but frequencies no longer match), a looked (table) value altered incl. first and last row, "
+          "a frequency +1 / zeroed, a filter flipped. Oracle: multiset equality of filtered looking values and table values weighted by frequencies, computed directly by the simulator: unequal => no accepted proof, still equal => accepted. "
+          "distinct = (instance, config, fault); non-trivial = the direct multiset check finds the fault violating",
+     technique="deterministic simulation: STARK lookup workloads with single-value faults on looking side, looked side, frequencies and filters; direct multiset oracle",
+     text="Seeded exploration of STARK column lookups in both directions with a multiset oracle that shares no code with the logUp argument.",
+     note="Covers lookups inside one table (starky::lookup). Cross-table lookups (starky::cross_table_lookup: get_ctl_data / CtlCheckVars / verify_cross_table_lookups) are NOT yet exercised by this check; helper and running-sum columns are computed inside the prover and cannot be corrupted through the API.")
